@@ -53,6 +53,8 @@ Calibration (false alarms corrected)
 * frames.compare files every pandas message containing "[index]:" under `index`; re-classified as `values`;
   values mismatches are refined to `spurious-NA` / `lost-NA` / `values` so that the label ablation cannot drift
   from one mechanism into another that merely has the same coarse symptom.
+* var/std/sem with ddof >= number of valid values on a NULLABLE column: pandas answers inf there (numpy's M/0 in
+  the masked reduction) but NaN for numpy-backed columns; no single pandas rule -> rejected.
 * options outside the statement's list (min_periods, dropna, normalize, sort/ascending, keep) are not generated
   (Cov ignores min_periods > 2: seen during calibration, outside the stated domain).
 * frames hold plain columns plus at most one column of a special class (or a wide subset under
@@ -412,6 +414,11 @@ def _evaluate(case):
                 expected = _program(_select(pdf, case), pdf, case, False)
         except Exception as ex:  # noqa: BLE001 - the reference refuses
             return _Outcome("reject", msg="%s: %s" % (type(ex).__name__, str(ex)[:60]))
+        if case["op"] in ("var", "std", "sem") and "ddof" in case["kw"]:
+            nul = [c for c in _used_columns(case) if CLASS[c] == "nullable" and c not in (case.get("cast") or {})]
+            if nul and min(int(pdf[c].notna().sum()) for c in nul) <= case["kw"]["ddof"]:
+                # pandas is self-inconsistent here: NaN for numpy-backed columns, inf (numpy's M/0) for masked ones
+                return _Outcome("reject", msg="ddof >= valid count on a nullable column: pandas has no single rule")
         if len(pdf) == 0 and not case.get("fixed"):
             # pandas accepts on an EMPTY frame programs it refuses on data (nothing is evaluated): the reduction is
             # "defined" only if pandas also answers for a non-empty frame of the same schema
